@@ -18,6 +18,9 @@ pub trait Kv {
     fn only_self(&self) -> &str;
     async fn aget(&self, key: &str) -> &str;
     async fn afind(&self, prefix: &str, other: &u8) -> Option<&str>;
+    fn tags(&self, item: &str) -> &[&str];
+    fn nested(&self, item: &str) -> Option<&(&str, &[u8])>;
+    fn ref_ref(&self, item: &str) -> &&str;
 }
 
 pub struct Store;
@@ -55,6 +58,15 @@ impl KvImpl for Store {
     }
     async fn afind<'a, D>(deps: &'a D, prefix: &str, other: &u8) -> Option<&'a str> {
         None
+    }
+    fn tags<'a, D>(deps: &'a D, item: &str) -> &'a [&'a str] {
+        &[]
+    }
+    fn nested<'a, D>(deps: &'a D, item: &str) -> Option<&'a (&'a str, &'a [u8])> {
+        None
+    }
+    fn ref_ref<'a, D>(deps: &'a D, item: &str) -> &'a &'a str {
+        &"x"
     }
 }
 
